@@ -5,4 +5,4 @@ From GV Require Import Model.Health.
 Extraction Language OCaml.
 Definition force_types : Z * N * nat := (Z.of_N (N.of_nat (Z.to_nat 0%Z)), 0%N, 0%nat).
 Extraction "../build/ml/mC19.ml" force_types agg_status resp_code st_of_code st_code health_init lookup
-  check_rpc winit run_cmd quiescent reset_slot run_timed invocations.
+  check_rpc winit run_cmd quiescent reset_slot run_timed invocations pinit pstep psettle live_pollers.
